@@ -17,6 +17,9 @@ package main
 //	  rcB             ref-counted link collection A.rcB <-> B.rcA (IncrementLinkCount / DecrementLinkCount / SetLinkCount)
 //	store A1: plain child of A (entity path ["ext1"]): code string, own unique index (non-nullable),
 //	          pals []string link collection OWNED BY THE CHILD STORE  A1.pals <-> B.palsOf
+//	store A2: EXTENDED child of A (entity path ["ext2"], `.Extended()`): colour string, own nullable unique index; creates,
+//	          updates (parent fields + colour under one checker) and deletes through it.  Its processDeleteConstraints
+//	          round runs for every parent entity (FindById of an extended store falls back to the parent's bucket).
 //
 // Case line:   h <vals> <tx>|<tx>|...        (same framing as C03)
 //
@@ -24,6 +27,9 @@ package main
 //	ua:<id>:<name>:<alias>:<roles>:<owner>:<dep>:<groups>:<chk>[:<boss>] A.Update, <chk> = * | subset of "narodgb" | 0
 //	da:<id>                                                     A.DeleteById
 //	cc:<id>:<name>:<alias>:<roles>:<owner>:<dep>:<groups>:<code>:<pals>[:<boss>]   A1.Create (through the child store)
+//	c2:<id>:<name>:<alias>:<roles>:<owner>:<dep>:<groups>:<colour>[:<boss>]        A2.Create (extended child store)
+//	u2:<id>:<name>:<alias>:<roles>:<owner>:<dep>:<groups>:<colour>:<chk>[:<boss>]  A2.Update, <chk> also knows c = colour
+//	d2:<id>                                                                        A2.DeleteById (delegates to the parent)
 //	(the trailing <boss> is optional: absent = nil)
 //	ri:<a>:<b>  rd:<a>:<b>  rs:<a>:<b>:<n>                      Increment / Decrement / SetLinkCount on A.rcB
 //	dc:<id>                                                     A1.DeleteById (delegates to the parent)
@@ -108,6 +114,24 @@ func (s *c06ExtStrategy) PersistEntity(e *c06Ext, ctx *boltz.PersistContext) {
 	ctx.SetLinkedIds("pals", append([]string{}, e.Pals...))
 }
 
+type c06Ext2 struct {
+	c06Thing
+	Colour string
+}
+
+type c06Ext2Strategy struct{ parent *boltz.BaseStore[*c06Thing] }
+
+func (s *c06Ext2Strategy) NewEntity() *c06Ext2 { return &c06Ext2{} }
+func (s *c06Ext2Strategy) FillEntity(e *c06Ext2, b *boltz.TypedBucket) {
+	_, err := s.parent.LoadEntity(b.Tx(), e.Id, &e.c06Thing)
+	b.SetError(err)
+	e.Colour = b.GetStringWithDefault("colour", "")
+}
+func (s *c06Ext2Strategy) PersistEntity(e *c06Ext2, ctx *boltz.PersistContext) {
+	s.parent.GetEntityStrategy().PersistEntity(&e.c06Thing, ctx.GetParentContext())
+	ctx.SetString("colour", e.Colour)
+}
+
 type c06Owner struct {
 	Id    string
 	Label *string
@@ -128,9 +152,10 @@ func (c06OwnerStrategy) PersistEntity(e *c06Owner, ctx *boltz.PersistContext) {
 type c06Stores struct {
 	things *boltz.BaseStore[*c06Thing]
 	ext    *boltz.BaseStore[*c06Ext]
+	ext2   *boltz.BaseStore[*c06Ext2]
 	owners *boltz.BaseStore[*c06Owner]
 
-	idxName, idxAlias, idxCode, idxLabel boltz.ReadIndex
+	idxName, idxAlias, idxCode, idxLabel, idxColour boltz.ReadIndex
 	idxRoles                             boltz.SetReadIndex
 	groups, members                      boltz.LinkCollection
 	rcAB                                 boltz.RefCountedLinkCollection
@@ -159,10 +184,25 @@ func c06Wire() *c06Stores {
 		EntityNotFoundF: func(id string) error { return boltz.NewNotFoundError("thing", "id", id) },
 	})
 	s.ext.InitImpl(s.ext)
+	s.ext2 = boltz.NewBaseStore(boltz.StoreDefinition[*c06Ext2]{
+		EntityStrategy: &c06Ext2Strategy{parent: s.things}, BasePath: []string{"ext2"}, Parent: s.things,
+		ParentMapper: func(e boltz.Entity) boltz.Entity {
+			if x, ok := e.(*c06Ext2); ok {
+				return &x.c06Thing
+			}
+			return e
+		},
+		EntityNotFoundF: func(id string) error { return boltz.NewNotFoundError("thing", "id", id) },
+	}).Extended()
+	s.ext2.InitImpl(s.ext2)
 	// the child store takes part in parent deletes; updates through the parent store stay with the parent
 	s.things.RegisterChildStoreStrategy(&boltz.ChildStoreUpdateHandler[*c06Thing, *c06Ext]{
 		Store:  s.ext,
 		Mapper: func(boltz.MutateContext, *c06Thing) (*c06Ext, bool) { return nil, false },
+	})
+	s.things.RegisterChildStoreStrategy(&boltz.ChildStoreUpdateHandler[*c06Thing, *c06Ext2]{
+		Store:  s.ext2,
+		Mapper: func(boltz.MutateContext, *c06Thing) (*c06Ext2, bool) { return nil, false },
 	})
 
 	// owners: label first, so that the fk delete constraint is registered after it
@@ -202,6 +242,10 @@ func c06Wire() *c06Stores {
 	symPalsOf := s.owners.AddFkSetSymbol("palsOf", s.ext)
 	s.ext.AddLinkCollection(symPals, symPalsOf)
 	s.owners.AddLinkCollection(symPalsOf, symPals)
+
+	s.things.GrantSymbols(s.ext2)
+	symColour := s.ext2.AddSymbol("colour", ast.NodeTypeString)
+	s.idxColour = s.ext2.AddNullableUniqueIndex(symColour)
 	return s
 }
 
@@ -217,17 +261,20 @@ type c06Op struct {
 	groups []string
 	code   string
 	pals   []string
+	colour string
 	label  *string
 	chk    string
 	other  string // second id of the ref-counted link operations
 	count  int
+	// shadow only: which child stores hold data for the entity
+	hasExt1, hasExt2 bool
 }
 
 func c06ParseOp(s string) c06Op {
 	f := strings.Split(s, ":")
 	op := c06Op{kind: f[0], id: fromWire(f[1])}
 	switch op.kind {
-	case "ca", "ua", "cc":
+	case "ca", "ua", "cc", "c2", "u2":
 		op.name = fromWire(f[2])
 		op.alias = csParseOpt(f[3])
 		op.roles = csParseList(f[4])
@@ -242,6 +289,15 @@ func c06ParseOp(s string) c06Op {
 		if op.kind == "cc" {
 			op.code = fromWire(f[8])
 			op.pals = csParseList(f[9])
+			nf = 10
+		}
+		if op.kind == "c2" {
+			op.colour = fromWire(f[8])
+			nf = 9
+		}
+		if op.kind == "u2" {
+			op.colour = fromWire(f[8])
+			op.chk = f[9]
 			nf = 10
 		}
 		if len(f) > nf {
@@ -277,6 +333,10 @@ func c06FmtOp(op c06Op) string {
 		return base() + ":" + op.chk + boss
 	case "cc":
 		return base() + ":" + toWire(op.code) + ":" + csList(op.pals) + boss
+	case "c2":
+		return base() + ":" + toWire(op.colour) + boss
+	case "u2":
+		return base() + ":" + toWire(op.colour) + ":" + op.chk + boss
 	case "cb":
 		return fmt.Sprintf("cb:%s:%s", toWire(op.id), csOpt(op.label))
 	case "ub":
@@ -302,7 +362,7 @@ func c06Checker(chk string, names map[byte]string) boltz.FieldChecker {
 	return m
 }
 
-var c06AFields = map[byte]string{'n': "name", 'a': "alias", 'r': "roles", 'o': "owner", 'd': "dep", 'g': "groups", 'b': "boss"}
+var c06AFields = map[byte]string{'n': "name", 'a': "alias", 'r': "roles", 'o': "owner", 'd': "dep", 'g': "groups", 'b': "boss", 'c': "colour"}
 var c06BFields = map[byte]string{'l': "label"}
 
 func (s *c06Stores) thing(op c06Op) *c06Thing {
@@ -322,6 +382,12 @@ func (s *c06Stores) apply(ctx boltz.MutateContext, op c06Op) error {
 		return s.ext.Create(ctx, &c06Ext{c06Thing: *s.thing(op), Code: op.code, Pals: append([]string{}, op.pals...)})
 	case "dc":
 		return s.ext.DeleteById(ctx, op.id)
+	case "c2":
+		return s.ext2.Create(ctx, &c06Ext2{c06Thing: *s.thing(op), Colour: op.colour})
+	case "u2":
+		return s.ext2.Update(ctx, &c06Ext2{c06Thing: *s.thing(op), Colour: op.colour}, c06Checker(op.chk, c06AFields))
+	case "d2":
+		return s.ext2.DeleteById(ctx, op.id)
 	case "cb":
 		return s.owners.Create(ctx, &c06Owner{Id: op.id, Label: op.label})
 	case "ub":
@@ -348,6 +414,7 @@ func (s *c06Stores) reads(tx *bbolt.Tx, vals []string) string {
 		fmt.Fprintf(&b, "a:%s=%s;", toWire(v), csHexOrNil(s.idxAlias.Read(tx, []byte(v))))
 		fmt.Fprintf(&b, "c:%s=%s;", toWire(v), csHexOrNil(s.idxCode.Read(tx, []byte(v))))
 		fmt.Fprintf(&b, "l:%s=%s;", toWire(v), csHexOrNil(s.idxLabel.Read(tx, []byte(v))))
+		fmt.Fprintf(&b, "x:%s=%s;", toWire(v), csHexOrNil(s.idxColour.Read(tx, []byte(v))))
 		var ids []string
 		s.idxRoles.Read(tx, []byte(v), func(val []byte) { ids = append(ids, string(val)) })
 		fmt.Fprintf(&b, "r:%s=%s;", toWire(v), csList(csSortedCopy(ids)))
@@ -371,6 +438,7 @@ func c06Exec(line string) string {
 		h := &errorz.ErrorHolderImpl{}
 		s.things.InitializeIndexes(ctx.Tx(), h)
 		s.ext.InitializeIndexes(ctx.Tx(), h)
+		s.ext2.InitializeIndexes(ctx.Tx(), h)
 		s.owners.InitializeIndexes(ctx.Tx(), h)
 		return h.Err
 	}); err != nil {
@@ -475,6 +543,18 @@ func (sh *c06Shadow) nameTaken(id, name string) bool {
 	return false
 }
 
+func (sh *c06Shadow) colourTaken(id, colour string) bool {
+	if colour == "" {
+		return false
+	}
+	for oid, e := range sh.a {
+		if oid != id && e.hasExt2 && e.colour == colour {
+			return true
+		}
+	}
+	return false
+}
+
 func (sh *c06Shadow) referenced(b string) bool {
 	for _, e := range sh.a {
 		if e.owner != nil && *e.owner == b {
@@ -511,23 +591,41 @@ func (sh *c06Shadow) apply(op c06Op) bool {
 		return e.name != "" && !sh.nameTaken(e.id, e.name)
 	}
 	switch op.kind {
-	case "ca", "cc":
+	case "ca", "cc", "c2":
 		if op.id == "" || !okRefs(&op) {
 			return false
 		}
-		if old := sh.a[op.id]; old != nil && (op.kind == "ca" || old.kind == "cc") {
+		old := sh.a[op.id]
+		if old != nil && (op.kind == "ca" || (op.kind == "cc" && old.hasExt1) || (op.kind == "c2" && old.hasExt2)) {
+			return false
+		}
+		if op.kind == "c2" && sh.colourTaken(op.id, op.colour) {
 			return false
 		}
 		cp := op
+		if old != nil {
+			cp.hasExt1, cp.hasExt2 = old.hasExt1, old.hasExt2
+			if op.kind == "cc" {
+				cp.colour = old.colour
+			}
+		}
+		cp.hasExt1 = cp.hasExt1 || op.kind == "cc"
+		cp.hasExt2 = cp.hasExt2 || op.kind == "c2"
 		sh.a[op.id] = &cp
 		return true
-	case "ua":
+	case "ua", "u2":
 		old := sh.a[op.id]
-		if old == nil {
+		if old == nil || (op.kind == "u2" && !old.hasExt2) {
 			return false
 		}
 		e := *old
 		all := op.chk == "*"
+		if op.kind == "u2" && (all || strings.Contains(op.chk, "c")) {
+			if sh.colourTaken(op.id, op.colour) {
+				return false
+			}
+			e.colour = op.colour
+		}
 		if all || strings.Contains(op.chk, "n") {
 			e.name = op.name
 		}
@@ -554,7 +652,7 @@ func (sh *c06Shadow) apply(op c06Op) bool {
 		}
 		sh.a[op.id] = &e
 		return true
-	case "da", "dc":
+	case "da", "dc", "d2":
 		if sh.a[op.id] == nil {
 			return false
 		}
@@ -671,9 +769,18 @@ func (sh *c06Shadow) genAVals(r *rng, op *c06Op, aIds []string) {
 	// boss: half of the entities have one; mostly an existing entity (chains, and through updates cycles), sometimes
 	// the entity itself, rarely a missing one or the empty string
 	op.boss = nil
+	var others []string
+	for _, id := range aIds {
+		if sh.a[id] != nil && id != op.id {
+			others = append(others, id)
+		}
+	}
 	switch k := r.intn(12); {
-	case k < 5:
-		v := c06PickId(r, aIds, func(id string) bool { return sh.a[id] != nil && id != op.id }, !r.chance(1, 25))
+	case k < 5 && len(others) > 0:
+		v := pick(r, others)
+		if r.chance(1, 30) {
+			v = pick(r, aIds)
+		}
 		op.boss = &v
 	case k == 5:
 		v := op.id
@@ -695,6 +802,26 @@ func (sh *c06Shadow) genAVals(r *rng, op *c06Op, aIds []string) {
 }
 
 var c06AChks = []string{"*", "*", "*", "n", "a", "r", "o", "d", "g", "b", "b", "no", "rg", "od", "dg", "nb", "nar", "narodgb", "0", "ao"}
+
+var c06A2Chks = []string{"*", "*", "c", "c", "nc", "n", "rg", "ob", "narodgbc", "0", "bc", "ac"}
+
+// c06GenColour: mostly a free colour, sometimes one that is taken, sometimes the empty string (not indexed)
+func c06GenColour(r *rng, sh *c06Shadow, id string) string {
+	if r.chance(1, 6) {
+		return ""
+	}
+	wantFree := !r.chance(1, 6)
+	var pool []string
+	for _, v := range c06Vals {
+		if sh.colourTaken(id, v) != wantFree {
+			pool = append(pool, v)
+		}
+	}
+	if len(pool) == 0 {
+		pool = c06Vals
+	}
+	return pick(r, pool)
+}
 
 func c06GenOp(r *rng, sh *c06Shadow, aIds []string) c06Op {
 	liveA := func(id string) bool { return sh.a[id] != nil }
@@ -718,6 +845,13 @@ func c06GenOp(r *rng, sh *c06Shadow, aIds []string) c06Op {
 			if r.chance(1, 5) {
 				op.id = c06PickId(r, aIds, liveA, true)
 			}
+		} else if r.chance(1, 3) {
+			// through the extended child store; a quarter of them over an existing parent without ext2 data
+			op.kind = "c2"
+			op.colour = c06GenColour(r, sh, op.id)
+			if r.chance(1, 4) {
+				op.id = c06PickId(r, aIds, func(id string) bool { return sh.a[id] != nil && !sh.a[id].hasExt2 }, true)
+			}
 		}
 		sh.genAVals(r, &op, aIds)
 		return op
@@ -733,6 +867,23 @@ func c06GenOp(r *rng, sh *c06Shadow, aIds []string) c06Op {
 		return op
 	case k < 52: // update / patch A
 		op := c06Op{kind: "ua", id: c06PickId(r, aIds, liveA, true), chk: pick(r, c06AChks)}
+		if r.chance(2, 5) {
+			// update through the extended child store (needs ext2 data; a tenth of them deliberately without)
+			var withExt2 []string
+			for _, id := range aIds {
+				if sh.a[id] != nil && sh.a[id].hasExt2 {
+					withExt2 = append(withExt2, id)
+				}
+			}
+			if len(withExt2) > 0 || r.chance(1, 6) {
+				op.kind = "u2"
+				if len(withExt2) > 0 && !r.chance(1, 10) {
+					op.id = pick(r, withExt2)
+				}
+				op.chk = pick(r, c06A2Chks)
+				op.colour = c06GenColour(r, sh, op.id)
+			}
+		}
 		sh.genAVals(r, &op, aIds)
 		if old := sh.a[op.id]; old != nil && r.chance(1, 5) {
 			op.name, op.owner = old.name, old.owner
@@ -740,8 +891,11 @@ func c06GenOp(r *rng, sh *c06Shadow, aIds []string) c06Op {
 		return op
 	case k < 70: // delete A
 		kind := "da"
-		if r.chance(1, 3) {
+		switch r.intn(6) {
+		case 0, 1:
 			kind = "dc"
+		case 2:
+			kind = "d2"
 		}
 		return c06Op{kind: kind, id: c06PickId(r, aIds, liveA, true)}
 	case k < 84:
@@ -774,8 +928,41 @@ func c06GenHistory(r *rng, nTx int) string {
 		var ops []string
 		work := sh.clone()
 		okTx := true
+		var scripted []c06Op
+		if len(sh.a) >= 2 && r.chance(1, 16) {
+			// one transaction: delete x, create it again as a referrer of y, delete y (the second cascade must take x)
+			x := c06PickId(r, aIds, func(id string) bool { return sh.a[id] != nil }, true)
+			var ys []string
+			for _, id := range aIds {
+				if sh.a[id] != nil && id != x {
+					ys = append(ys, id)
+				}
+			}
+			if sh.a[x] != nil && len(ys) > 0 {
+				y := pick(r, ys)
+				kind := "da"
+				if r.chance(1, 3) {
+					kind = "dc"
+				}
+				re := c06Op{kind: "ca", id: x}
+				if r.chance(1, 4) {
+					re.kind, re.code = "cc", pick(r, c06Vals)
+				}
+				mid := sh.clone()
+				mid.deleteA(x)
+				mid.genAVals(r, &re, aIds)
+				re.boss = &y
+				scripted = []c06Op{{kind: kind, id: x}, re, {kind: "da", id: y}}
+				n = len(scripted)
+			}
+		}
 		for i := 0; i < n; i++ {
-			op := c06GenOp(r, work, aIds)
+			var op c06Op
+			if scripted != nil {
+				op = scripted[i]
+			} else {
+				op = c06GenOp(r, work, aIds)
+			}
 			ops = append(ops, c06FmtOp(op))
 			if okTx && !work.apply(op) {
 				okTx = false
@@ -788,7 +975,22 @@ func c06GenHistory(r *rng, nTx int) string {
 	}
 	// histories end in a delete (in its own transaction)
 	if len(sh.a) > 0 && r.chance(3, 4) {
-		txs = append(txs, "da:"+toWire(c06PickId(r, aIds, func(id string) bool { return sh.a[id] != nil }, true)))
+		// half of the time an entity that somebody reports to, if there is one
+		isBoss := func(id string) bool {
+			for _, e := range sh.a {
+				if e.boss != nil && *e.boss == id && sh.a[id] != nil {
+					return true
+				}
+			}
+			return false
+		}
+		target := c06PickId(r, aIds, func(id string) bool { return sh.a[id] != nil }, true)
+		if r.chance(1, 2) {
+			if b := c06PickId(r, aIds, isBoss, true); isBoss(b) {
+				target = b
+			}
+		}
+		txs = append(txs, "da:"+toWire(target))
 	} else if len(sh.b) > 0 {
 		txs = append(txs, "db:"+toWire(c06PickId(r, c06BIds, func(id string) bool { return sh.b[id] }, true)))
 	}
